@@ -350,7 +350,9 @@ def check_property(pid, tier, seed):
         undecided = []
         for r in refs:
             fn, lab = r.split("|", 1)
-            if fn in main.get("lost_contracts", []):
+            if fn in main["refused"]:
+                undecided.append(f"function {fn} could not be verified ({'; '.join(main['refused'][fn])[:200]}): clause {lab} undecided")
+            elif fn in main.get("lost_contracts", []):
                 undecided.append(f"LOST-ANCHOR: function {fn} no longer exists in the tree (its contract has nothing to attach to)")
             elif lab == "<missing>":
                 undecided.append(f"function {fn} is not under contract")
